@@ -207,18 +207,18 @@ def families(tier, seed):
 
 
 def _twin_line_polyhedron_single_hit():
-    """mutant: a line that meets a polyhedron in a single point (vertex / edge contact) is reported as disjoint"""
-    import sys as _sys
-    it = _sys.modules['Geometry3D.calc.intersection']
-    orig = it.inter_line_convexpolyhedron
+    """mutant: a line that meets a polyhedron in a Segment has the segment cut in half"""
+    from .c01 import _wrap_public
 
-    def f(l, cph):
-        r = orig(l, cph)
-        return None if isinstance(r, Point) else r
-    it.inter_line_convexpolyhedron = f
+    def post(a, b, r):
+        if isinstance(r, Segment) and {type(a), type(b)} == {Line, ConvexPolyhedron}:
+            m = Point((r.start_point.x + r.end_point.x) / 2, (r.start_point.y + r.end_point.y) / 2, (r.start_point.z + r.end_point.z) / 2)
+            return Segment(r.start_point, m)
+        return r
+    _wrap_public('intersection', post)
 
 
-TWINS = {'line touching a polyhedron -> None': (r'^Line/Polyhedron-cube@axis/vertex-edge-inplane/', _twin_line_polyhedron_single_hit)}
+TWINS = {'Line x polyhedron chord cut in half': (r'^Line/Polyhedron-cube@axis/vertex-edge-inplane/', _twin_line_polyhedron_single_hit)}
 
 
 META = dict(
